@@ -20,6 +20,8 @@ def check(run, replay=None):
                  "(as all (m1,m2) pairs for add and all (m1,k) pairs for mul; 512-bit configuration, thorough: all four), "
                  "boundary pairs (m1+m2 = N, N-1+N-1, N-1+1, k*m1 just above a multiple of N, k in {0,1,N-1}, "
                  "2*(N+1)/2) and random pairs under every toy, mid-size and key-sized key in all four configurations; "
+                 "scalars with limb structure (2^(64j) and neighbours, cleared interior limbs, a single non-zero limb, top bit set); "
+                 "the neutral ciphertext 1 = Enc(0;1) = c^0 on either side of add, N+1, N^2-1; "
                  "both decryption paths; mul vs mul_vartime ciphertext equality. A sample goes to the Coq model. "
                  "non-trivial = distinct in-Coq record whose operands are not 0/1"),
     }
